@@ -76,7 +76,7 @@ def random_simplicial_complex(N, ps, seed=None):
 
         potential_simplices = combinations(nodes, d + 1)
         n_comb = comb(N, d + 1, exact=True)
-        mask = np.random.random(size=n_comb) <= p  # True if simplex to keep
+        mask = np.random.random(size=n_comb) < p  # True if simplex to keep
 
         simplices_to_add = [e for e, val in zip(potential_simplices, mask) if val]
 
@@ -149,7 +149,7 @@ def flag_complex(G, max_order=2, ps=None, seed=None):
     # promote cliques with a given probability
     for i, p in enumerate(ps[: max_order - 1]):
         d = i + 2  # simplex order
-        cliques_d_to_add = [el for el in cliques_d[d + 1] if random.random() <= p]
+        cliques_d_to_add = [el for el in cliques_d[d + 1] if random.random() < p]
         S.add_simplices_from(cliques_d_to_add, max_order=max_order)
 
     return S
@@ -198,7 +198,7 @@ def flag_complex_d2(G, p2=None, seed=None):
     triangles_empty = find_triangles(G)
 
     if p2 is not None:
-        triangles = [el for el in triangles_empty if random.random() <= p2]
+        triangles = [el for el in triangles_empty if random.random() < p2]
     else:
         triangles = triangles_empty
 
